@@ -460,18 +460,47 @@ def encode_twinseq(cfg, whichs):
     return b"".join(parts)
 
 
+_GOLD = {}
+import os  # noqa: E402
+from sim.core import VERIF  # noqa: E402
+
+
+def gold_names():
+    if "index" not in _GOLD:
+        import json
+
+        with open(os.path.join(VERIF, "corpus", "gold", "index.json")) as f:
+            _GOLD["index"] = json.load(f)
+    return sorted(_GOLD["index"])
+
+
+def gold_stream(name):
+    """Bytes of one item of the frozen corpus (corpus/gold, tools/gen_gold.py)."""
+    if name not in gold_names():
+        raise WorkloadError("no such corpus item: %r" % (name,))
+    if name not in _GOLD:
+        with open(os.path.join(VERIF, "corpus", "gold", name + ".vc2"), "rb") as f:
+            _GOLD[name] = f.read()
+    return _GOLD[name]
+
+
 def wide_configs():
     """A handful of extreme-aspect configurations (one very long row / one very
     long column, shallow and very deep samples, flat pictures so that streams
     stay small): sizes and counts beyond what the tiny formats reach — a row of
     more than 256 KiB, more than 2^14 rows — within the area bound."""
     out = []
-    for (w, h, bits, profile, frag) in [(16400, 1, 70, 3, 0), (32000, 1, 40, 3, 0), (16400, 1, 8, 0, 0), (1, 16400, 65, 3, 0), (2, 8200, 10, 3, 3), (20000, 1, 65, 3, 2)]:
+    # (width, height, sample bits, profile, fragment slices, lossless, picture kind)
+    for (w, h, bits, profile, frag, lossless, kind) in [
+        (16400, 1, 70, 3, 0, True, "mid"), (32000, 1, 40, 3, 0, True, "mid"), (16400, 1, 8, 0, 0, False, "noise"),
+        (1, 16400, 65, 3, 0, True, "mid"), (2, 8200, 10, 3, 3, True, "mid"), (20000, 1, 65, 3, 2, True, "mid"),
+        (9000, 1, 8, 3, 0, False, "noise"), (2, 4400, 8, 3, 0, False, "noise"),
+    ]:
         exc = (1 << bits) - 1
         out.append(OrderedDict(
             profile=profile, level=0, pcm=0, w=w, h=h, cdf=0, luma_exc=exc, luma_off=0, cd_exc=exc, cd_off=(exc + 1) // 2,
-            wavelet=4, wavelet_ho=4, depth=1, depth_ho=0, sx=2 if w > 1 else 1, sy=1, frag=frag, lossless=(profile == 3), picture_bytes=(None if profile == 3 else 64),
-            qm=None, npics=2, pic_kind="mid", pic_seed=7, first_pic_num=None, nseq=1, extras=None, mix=None, color=None,
+            wavelet=4, wavelet_ho=4, depth=1, depth_ho=0, sx=2 if w > 1 else 1, sy=1, frag=frag, lossless=lossless, picture_bytes=(None if lossless else 400),
+            qm=None, npics=2, pic_kind=kind, pic_seed=7, first_pic_num=None, nseq=1, extras=None, mix=None, color=None,
         ))
     return out
 
